@@ -172,6 +172,9 @@ where
 
         // solve time so far (includes setup)
         self.solve_time = timers.total_time().as_secs_f64();
+
+        #[cfg(feature = "verif")]
+        self.verif_emit(crate::verif::IterEventKind::Iterate, variables, Some(residuals));
     }
 
     fn check_termination(
@@ -260,6 +263,51 @@ where
 
     fn set_status(&mut self, status: SolverStatus) {
         self.status = status;
+    }
+}
+
+// read-only verification hook: hand a copy of the state to the observer
+#[cfg(feature = "verif")]
+impl<T> DefaultInfo<T>
+where
+    T: FloatT,
+{
+    pub(crate) fn verif_emit(
+        &self,
+        kind: crate::verif::IterEventKind,
+        variables: &DefaultVariables<T>,
+        residuals: Option<&DefaultResiduals<T>>,
+    ) {
+        use crate::verif::{to_f64, vec_f64};
+        if !crate::verif::observer_is_set() {
+            return;
+        }
+        let ev = crate::verif::IterEvent {
+            kind,
+            iterations: self.iterations,
+            μ: to_f64(self.μ),
+            step_length: to_f64(self.step_length),
+            sigma: to_f64(self.sigma),
+            τ: to_f64(variables.τ),
+            κ: to_f64(variables.κ),
+            x: vec_f64(&variables.x),
+            s: vec_f64(&variables.s),
+            z: vec_f64(&variables.z),
+            solve_time: self.solve_time,
+            status: self.status,
+            cost_primal: to_f64(self.cost_primal),
+            cost_dual: to_f64(self.cost_dual),
+            res_primal: to_f64(self.res_primal),
+            res_dual: to_f64(self.res_dual),
+            res_primal_inf: to_f64(self.res_primal_inf),
+            res_dual_inf: to_f64(self.res_dual_inf),
+            gap_abs: to_f64(self.gap_abs),
+            gap_rel: to_f64(self.gap_rel),
+            ktratio: to_f64(self.ktratio),
+            dot_bz: residuals.map_or(f64::NAN, |r| to_f64(r.dot_bz)),
+            dot_qx: residuals.map_or(f64::NAN, |r| to_f64(r.dot_qx)),
+        };
+        crate::verif::emit(&ev);
     }
 }
 
